@@ -15,6 +15,8 @@ import PqlModel.Props.C07Defaults
 import PqlModel.Props.C02SplitImperative
 import PqlModel.Props.C06Placeholders
 import PqlModel.Props.C02ProgramNames
+import PqlModel.Props.C02SplitIR
+import PqlModel.Props.C03JoinCondIR
 #print axioms Pql.C02.C02_canAttachSort_table
 #print axioms Pql.C02.C02_top_eq_sort_take
 #print axioms Pql.C02.C02_spec_top
@@ -88,3 +90,25 @@ import PqlModel.Props.C02ProgramNames
 #print axioms Pql.E2EMore.C02_end_to_end_program_names
 #print axioms Pql.E2EMore.C02_end_to_end_program_names_bytes
 #print axioms Pql.E2EMore.C02_end_to_end_program_names_run
+#print axioms Pql.SplitIR.C02_chain_ir
+#print axioms Pql.SplitIR.C02_split_ir
+#print axioms Pql.SplitIR.C02_split_ir_fuel
+#print axioms Pql.SplitIR.C02_split_ir_not_stuck
+#print axioms Pql.SplitIR.C02_split_ir_refines_model
+#print axioms Pql.SplitIR.C02_split_ir_refines_model_top
+#print axioms Pql.SplitIR.C02_split_ir_fuel_needed
+#print axioms Pql.SplitIR.chain_ir
+#print axioms Pql.SplitIR.pre_ir
+#print axioms Pql.SplitIR.post_ir
+#print axioms Pql.SplitIR.as_ir
+#print axioms Pql.SplitIR.default_ir
+#print axioms Pql.SplitIR.sort_ir
+#print axioms Pql.SplitIR.take_ir
+#print axioms Pql.SplitIR.top_ir
+#print axioms Pql.SplitIR.join_ir
+#print axioms Pql.SplitIR.loop_header
+#print axioms Pql.SplitIR.key_join
+#print axioms Pql.SplitIR.run_tab
+#print axioms Pql.SplitIR.run_ops
+#print axioms Pql.SplitIR.exec_joinTail
+#print axioms Pql.SplitIR.exec_joinHead
